@@ -7,6 +7,7 @@ generated street graphs, the straight-line network and the shipped Denver graph,
 from __future__ import annotations
 
 import itertools
+import os
 from typing import Any, Dict, List, Tuple
 
 import h3
@@ -234,6 +235,16 @@ def _c14_shard(shard) -> Dict[str, Any]:
             rn.distance_by_geoid_km(lo.start, lo.start)
             rn.distance_by_geoid_km(lo.start, lo.end)
             rn.distance_by_geoid_km(lo.end, lo.end)
+            # ... and the object's other public services: snapping, the geofence test, and saving the
+            # network to a file (every other origin), all of which must leave the routing untouched
+            rn.position_from_geoid(lo.end)
+            rn.link_from_geoid(lo.start)
+            rn.geoid_within_geofence(lo.start)
+            if i % 2 == 0:
+                import tempfile as _tf
+
+                with _tf.TemporaryDirectory(dir="/dev/shm") as _d:
+                    rn.to_file(os.path.join(_d, "net.json"))
         if lo is None:
             # a street of the input graph is unknown to the network built from it: no route can start there
             out["nfindings"] += 1
